@@ -90,18 +90,58 @@ def rule_a(prog, rep):
             else:
                 rep.ok('C16.a', f'aggregate:{sv}', f'{f.file}:{arm.get("ln")}', f'conflict test (other buffer non-empty or key buffered) -> flush; then all pairs into {own}')
     k = crate.fn(f'{AGG}::key_already_buffered')
-    flds = set()
-    for c in [k] + crate.closures_of(k):
-        for nd, a in walk(c.hir):
-            if nd.get('k') == 'call' and short(callee(nd)) == 'contains_key':
-                flds |= {x['name'] for x, _ in walk(nd['args'][0]) if x.get('k') == 'field' and x['name'].endswith('_buffer')}
-    top = k.hir
-    while top.get('k') == 'block' and 'tail' in top and not top['stmts']:
-        top = top['tail']
-    if flds == {'set_buffer', 'deleted_buffer'} and top.get('k') == 'binary' and top.get('op') == 'Or':
-        rep.ok('C16.a', 'key_already_buffered', k.loc, 'any key in set_buffer OR any key in deleted_buffer')
+    # exact: evaluate the body as a boolean function of "pair i is in set_buffer / deleted_buffer" over all 2-pair inputs and
+    # compare with `exists i: in_set(i) or in_deleted(i)` (any syntactic form with the same truth table is accepted)
+    kb = Bindings(crate, k)
+
+    class _Unrec(Exception):
+        pass
+
+    def ev(e, pairs, cur):
+        kk = e.get('k')
+        if kk == 'block' and not e.get('stmts') and 'tail' in e:
+            return ev(e['tail'], pairs, cur)
+        if kk == 'binary' and e.get('op') in ('Or', 'And'):
+            l, r = ev(e['l'], pairs, cur), ev(e['r'], pairs, cur)
+            return (l or r) if e['op'] == 'Or' else (l and r)
+        if kk == 'unary' and e.get('op') == 'Not':
+            return not ev(e['e'], pairs, cur)
+        if kk == 'call':
+            sh = short(callee(e))
+            if sh in ('any', 'all') and len(e['args']) == 2 and e['args'][1].get('k') == 'closure' and \
+                    kb.origins(e['args'][0]) == {'param(kvps)'}:
+                cl = crate.closure(e['args'][1]['def'])
+                vals = [ev(cl.hir, pairs, p) for p in pairs]
+                return any(vals) if sh == 'any' else all(vals)
+            if sh == 'contains_key' and len(e['args']) == 2 and cur is not None:
+                fl = {x['name'] for x, _ in walk(e['args'][0]) if x.get('k') == 'field' and x['name'].endswith('_buffer')}
+                keyf = [x for x, _ in walk(e['args'][1]) if x.get('k') == 'field' and x['name'] == 'key']
+                if len(fl) == 1 and keyf:
+                    return cur[0] if fl == {'set_buffer'} else cur[1] if fl == {'deleted_buffer'} else _raise()
+        raise _Unrec(kk)
+
+    def _raise():
+        raise _Unrec('buffer')
+    import itertools
+    good, why = True, ''
+    try:
+        for n_ in (0, 1, 2):
+            for pairs in itertools.product([(a_, b_) for a_ in (False, True) for b_ in (False, True)], repeat=n_):
+                got = ev(k.hir, list(pairs), None)
+                want_ = any(a_ or b_ for a_, b_ in pairs)
+                if bool(got) != want_:
+                    good, why = False, f'for pairs (in set_buffer, in deleted_buffer) = {list(pairs)} it answers {got}'
+                    break
+            if not good:
+                break
+    except _Unrec as e_:
+        good, why = False, f'unrecognised-shape ({e_})'
+    if good:
+        rep.ok('C16.a', 'key_already_buffered', k.loc, 'true iff some pair of the event has its key in set_buffer or in deleted_buffer '
+               '(truth table over all inputs of up to 2 pairs)')
     else:
-        rep.violation('C16.a', 'key_already_buffered', k.loc, f'consults {sorted(flds)} combined with {top.get("op")}', key='C16.a/key_already_buffered')
+        rep.violation('C16.a', 'key_already_buffered', k.loc, f'is not "some key of the event is already buffered in either buffer": {why}',
+                      key='C16.a/key_already_buffered')
 
 
 def rule_b(prog, rep):
@@ -255,7 +295,15 @@ def rule_c(prog, rep):
     loops = [nd for nd, an in crate.walk_fn(lp) if nd.get('k') == 'loop']
     if not loops:
         raise AnchorMissing('loop in aggregate_loop')
-    tr3 = Tracer(crate, cl3, cond_events=('tick', 'event'))
+    lb0 = Bindings(crate, lp)
+
+    def alias(nd):
+        # the select! branch that receives from the trigger channel created in this function (not the event receiver parameter)
+        o = lb0.origins(nd)
+        if o and all(x.startswith('select(recv:call(') and 'channel' in x for x in o):
+            return 'tick'
+        return None
+    tr3 = Tracer(crate, cl3, cond_alias=alias)
     tr3.env = {}
     bp = tr3.expr(loops[0]['body'])
     skipped = [t for (ex, t, v) in bp if '?tick=1' in t and 'flush' not in t]
